@@ -1,5 +1,6 @@
 """C03 helpers: exact form <-> cell conversion, observation of the real gethkls / makerings /
-assigntorings, judgement of one TLC case against the observation, ring trace recorder.
+assigntorings, judgement of one TLC case against the observation, ring trace recorder; vectorised
+(numpy, exact int64) brute force and linear-time ring judgement for the BIG instances.
 
 Everything here is independent of TLC: it takes one record emitted by specs/HklWalk.tla
 (`Emit` / `EmitCap`) and the real `ImageD11.unitcell` module.
@@ -63,9 +64,11 @@ def textbook_absent(cen, h, k, l):
     raise ValueError(cen)
 
 
-def cell_from_form(g, tie=False, cap=False):
+def cell_from_form(g, tie=False, cap=False, mode="lo"):
     """direct cell (a,b,c,alpha,beta,gamma) whose reciprocal metric is g/scale; returns (cell, scale)
-    edges are put inside [2,30] A (smallest edge 4 A, or 2 A when the ratio needs it)."""
+    edges are put inside [2,30] A: mode "lo" = smallest edge 4 A (2 A when the ratio needs it),
+    mode "hi" = longest edge 30 A (the same integer problem realised by a large cell and a small
+    d-star limit instead of a small cell and a large limit)."""
     m = mat(g)
     d = det3(m)
     a = adj3(m)                      # direct metric = scale * a / d
@@ -74,6 +77,8 @@ def cell_from_form(g, tie=False, cap=False):
         scale = Fr(900)              # c = 30 A, a = b = 0.15 A (outside the property's domain on purpose)
     elif tie:
         scale = Fr(256)
+    elif mode == "hi":
+        scale = Fr(900) / max(diag)
     else:
         n, mx = min(diag), max(diag)
         scale = Fr(16) / n if mx / n <= 49 else Fr(4) / n
@@ -129,9 +134,12 @@ class Obs(object):
     pass
 
 
-def observe_gethkls(ucmod, cell, cen, dsmax, via_parameters=False):
-    """call the real gethkls with ds() and absent() wrapped to record the walk"""
-    if via_parameters:
+def observe_gethkls(ucmod, cell, cen, dsmax, via_parameters=False, via=None):
+    """call the real gethkls with ds() and absent() wrapped to record the walk
+    via: None = unitcell(cell, cen) | "parameters" = unitcell_from_parameters | "string" = cellfromstring"""
+    if via == "string":
+        uc = ucmod.cellfromstring(" ".join(repr(float(x)) for x in cell) + " " + cen)    # repr: bit-exact round trip
+    elif via_parameters or via == "parameters":
         from ImageD11 import parameters
         p = parameters.parameters(cell__a=cell[0], cell__b=cell[1], cell__c=cell[2],
                                   cell_alpha=cell[3], cell_beta=cell[4], cell_gamma=cell[5])
@@ -212,9 +220,10 @@ def judge_gethkls(rec, o, scale):
     elif not cap and o.ds_calls == box_trace(rec["box"]):
         v.algo = "box"
     elif not cap and rec.get("boxtie") and any(
-            o.ds_calls == box_trace([b + d for b, d in zip(rec["box"], dd)])
-            for dd in itertools.product((0, 1), repeat=3)):
-        v.algo = "box"            # int(dsmax*a) on an exact integer: either rounding is the model's
+            o.ds_calls == box_trace([max(b + d, 0) for b, d in zip(rec["box"], dd)])
+            for dd in itertools.product((0, -1, 1), repeat=3)):
+        v.algo = "box"            # dsmax*a is an exact integer n: the float product truncates to n or n - 1
+                                  # depending on the realisation (hkl with |h| = n lie ON the limit: out either way)
     else:
         v.algo = "other"
     if v.algo == "box":
@@ -425,3 +434,216 @@ def random_cell(rng, kind):
         vol2 = 1 - ca * ca - cb * cb - cg * cg + 2 * ca * cb * cg
         if vol2 > 0.05:
             return tuple(e) + tuple(an), e[0] * e[1] * e[2] * math.sqrt(vol2)
+
+
+# ------------------------------------------------------------------------------------------
+# BIG instances (candidate boxes of 1e5 .. 2e6 hkl): vectorised, exact, independent of the code
+
+HP = 1000003
+
+
+def textbook_absent_np(cen, H, K, L):
+    """textbook_absent on integer arrays (written from the same table of the International Tables)"""
+    if cen == "P":
+        return np.zeros(np.broadcast(H, K, L).shape, bool)
+    if cen == "A":
+        return (K + L) % 2 != 0
+    if cen == "B":
+        return (H + L) % 2 != 0
+    if cen == "C":
+        return (H + K) % 2 != 0
+    if cen == "I":
+        return (H + K + L) % 2 != 0
+    if cen == "F":
+        return ~(((H % 2) == (K % 2)) & ((K % 2) == (L % 2)))
+    if cen == "R":
+        return (-H + K + L) % 3 != 0
+    raise ValueError(cen)
+
+
+def q_np(g, hkl):
+    h, k, l = hkl[:, 0], hkl[:, 1], hkl[:, 2]
+    return g[0] * h * h + g[1] * k * k + g[2] * l * l + 2 * g[3] * k * l + 2 * g[4] * h * l + 2 * g[5] * h * k
+
+
+def code_np(hkl):
+    """injective code of an hkl with |h|,|k|,|l| < 256"""
+    return ((hkl[:, 0] + 256) * 512 + (hkl[:, 1] + 256)) * 512 + (hkl[:, 2] + 256)
+
+
+class Brute(object):
+    """every non-zero hkl with Q < lim the centring allows: hkl (n,3) int64, q (n,), sorted codes"""
+    def __init__(self, g, lim, cen):
+        m = mat(g)
+        d = det3(m)
+        a = adj3(m)
+        # Cauchy-Schwarz: x_i^2 <= Q(x) (G^-1)_ii < lim a_ii / d ; two more on every side
+        b = [int(math.isqrt((lim * a[i][i]) // d)) + 2 for i in range(3)]
+        H = np.arange(-b[0], b[0] + 1, dtype=np.int64)[:, None, None]
+        K = np.arange(-b[1], b[1] + 1, dtype=np.int64)[None, :, None]
+        Lz = np.arange(-b[2], b[2] + 1, dtype=np.int64)[None, None, :]
+        q = g[0] * H * H + g[1] * K * K + g[2] * Lz * Lz + 2 * g[3] * K * Lz + 2 * g[4] * H * Lz + 2 * g[5] * H * K
+        sel = q < lim
+        sel[b[0], b[1], b[2]] = False                     # (0,0,0) is not a reflection
+        if sel[0].any() or sel[-1].any() or sel[:, 0].any() or sel[:, -1].any() or sel[:, :, 0].any() or sel[:, :, -1].any():
+            raise AssertionError("brute force box too small")
+        sel &= ~textbook_absent_np(cen, H, K, Lz)
+        i, j, k = np.nonzero(sel)
+        self.hkl = np.stack([i - b[0], j - b[1], k - b[2]], axis=1).astype(np.int64)
+        self.q = q[sel]
+        self.codes = np.sort(code_np(self.hkl))
+        self.g, self.lim, self.cen = list(g), lim, cen
+
+    def below(self, lim2):
+        """the same set for a smaller limit"""
+        o = object.__new__(Brute)
+        keep = self.q < lim2
+        o.hkl, o.q = self.hkl[keep], self.q[keep]
+        o.codes = np.sort(code_np(o.hkl))
+        o.g, o.lim, o.cen = self.g, lim2, self.cen
+        return o
+
+    def summary(self):
+        """the numbers HklWalk.tla emits for a BIG instance (EmitBig)"""
+        h = self.hkl
+        code = ((h[:, 0] + HMAX) * (2 * HMAX + 1) + (h[:, 1] + HMAX)) * (2 * HMAX + 1) + (h[:, 2] + HMAX)
+        return {"nb": int(len(h)), "hq": int(self.q.sum() % HP), "hc": int((code % HP).sum() % HP),
+                "nsh": int(len(np.unique(self.q)))}
+
+
+def list_arrays(peaks):
+    n = len(peaks)
+    hkl = np.array([p[1] for p in peaks], dtype=np.int64).reshape(n, 3)
+    ds = np.array([p[0] for p in peaks], dtype=float).reshape(n)
+    return hkl, ds
+
+
+def hkls_of(codes, limit=6):
+    out = []
+    for c in codes[:limit].tolist():
+        out.append((c // (512 * 512) - 256, (c // 512) % 512 - 256, c % 512 - 256))
+    return out
+
+
+def judge_list_np(brute, peaks, Bmat, scale):
+    """the list clauses of the property on a (big) list; returns (failed clauses, detail dict)"""
+    fails, det = [], {}
+    hkl, ds = list_arrays(peaks)
+    if len(hkl) and np.abs(hkl).max() >= 256:
+        return ["unsound"], {"extra": "an index beyond 255"}
+    codes = code_np(hkl)
+    u = np.unique(codes)
+    miss = np.setdiff1d(brute.codes, u, assume_unique=True)
+    extra = np.setdiff1d(u, brute.codes, assume_unique=True)
+    if len(miss):
+        fails.append("incomplete")
+        det["missing"] = hkls_of(miss)
+        det["n_missing"] = int(len(miss))
+    if len(extra):
+        fails.append("unsound")
+        det["extra"] = hkls_of(extra)
+        det["n_extra"] = int(len(extra))
+    if len(u) != len(codes):
+        fails.append("duplicates")
+    q = q_np(brute.g, hkl)
+    if (np.diff(q) < 0).any():
+        fails.append("not-ascending")
+    e = np.sqrt(q / float(scale))
+    if (np.abs(ds - e) > 1e-9 * e + 1e-12).any():
+        fails.append("ds-value")
+    bl = np.sqrt(((hkl.astype(float) @ np.asarray(Bmat, float).T) ** 2).sum(axis=1))
+    if (np.abs(ds - bl) > 1e-9 * bl + 1e-12).any():
+        fails.append("ds-vs-B")
+    det["n_real"], det["n_brute"] = int(len(codes)), int(len(brute.codes))
+    return fails, det
+
+
+def ring_starts(uc):
+    """list positions at which the rings of the real table start, when the table is a partition of
+    uc.peaks into consecutive runs labelled by their first member (else: the failed clause)"""
+    peaks = uc.peaks
+    if len(uc.ringhkls) != len(uc.ringds):
+        return None, "prop:ringds-count"
+    pos, starts = 0, []
+    for d in uc.ringds:
+        mem = uc.ringhkls.get(d)
+        if not mem:
+            return None, "prop:nonempty"
+        m = len(mem)
+        if [tuple(x) for x in mem] != [tuple(p[1]) for p in peaks[pos:pos + m]]:
+            return None, "prop:runs"
+        if d != peaks[pos][0]:
+            return None, "prop:ringds-label"
+        starts.append(pos)
+        pos += m
+    if pos != len(peaks):
+        return None, "prop:cover"
+    return np.array(starts, dtype=np.int64), None
+
+
+def judge_rings_np(uc, tol, q=None, scale=None):
+    """linear-time judgement of a ring table on a long list: the stated partition property, the
+    grouping rule of TraceRings.tla (a ring lasts while ds - ds(ring start) < tol), and - when q is
+    given (tol below every gap between distinct exact d-stars) - rings = shells of equal Q."""
+    starts, why = ring_starts(uc)
+    if why:
+        return [why], None
+    fails = []
+    ds = np.array([p[0] for p in uc.peaks], float)
+    n = len(ds)
+    if (np.diff(ds) < 0).any():
+        fails.append("prop:sorted")
+    isstart = np.zeros(n, bool)
+    isstart[starts] = True
+    d1 = np.abs(ds[1:] - ds[:-1])
+    if (d1[~isstart[1:]] >= tol).any():
+        fails.append("prop:gap")
+    # the code's rule
+    ring_of = np.cumsum(isstart) - 1
+    s0 = ds[starts][ring_of]
+    if (np.abs(ds - s0)[~isstart] >= tol).any() or \
+            (len(starts) > 1 and (np.abs(ds[starts[1:]] - ds[starts[:-1]]) < tol).any()):
+        fails.append("conf:table")
+    if q is not None:
+        want = np.concatenate([[0], np.flatnonzero(np.diff(q) != 0) + 1])
+        if len(want) != len(starts) or (want != starts).any():
+            fails.append("rings are not the shells of equal Q")
+        else:
+            e = np.sqrt(q[starts] / float(scale))
+            if (np.abs(ds[starts] - e) > 1e-9 * e + 1e-12).any():
+                fails.append("ringds value")
+    return fails, starts
+
+
+def ring_windows(uc, starts, tol, tid0, route, maxlen=90, want=3):
+    """traces for TraceRings of windows of consecutive rings (the grouping rule restarts at every
+    ring start, so a run of whole rings is a trace of its own); only windows in which no comparison
+    lies within the quantisation margin"""
+    ds = [p[0] for p in uc.peaks]
+    n, nr = len(ds), len(starts)
+    ends = list(starts[1:]) + [n]
+    out, tried = [], 0
+    anchors = [0, nr // 2, nr - 1, nr // 3, (2 * nr) // 3, nr // 5]
+    for a in anchors:
+        if len(out) >= want:
+            break
+        for shift in range(0, 40, 5):
+            j1 = min(nr - 1, a + shift) if a < nr - 1 else max(0, nr - 1 - shift)
+            j0 = j1
+            while j0 > 0 and ends[j1] - starts[j0 - 1] <= maxlen:
+                j0 -= 1
+            while j1 < nr - 1 and ends[j1 + 1] - starts[j0] <= maxlen:
+                j1 += 1
+            p0, p1 = int(starts[j0]), int(ends[j1])
+            if p1 - p0 > 4 * maxlen:
+                continue
+            w = ds[p0:p1]
+            tried += 1
+            if not margins_ok(w, tol):
+                continue
+            rm = [list(range(int(starts[j]) - p0 + 1, int(ends[j]) - p0 + 1)) for j in range(j0, j1 + 1)]
+            out.append({"tid": tid0 + len(out), "route": route, "tol": q7(tol), "ds": [q7(x) for x in w],
+                        "rs": [q7(ds[int(starts[j])]) for j in range(j0, j1 + 1)], "rm": rm, "gds": [], "ra": [],
+                        "window": [j0, j1]})
+            break
+    return out
